@@ -402,6 +402,132 @@ pub fn run_case(c: &Sexp) -> Sexp {
                 vec![schema_to_sexp(&schema), vdump, valid, resolved, datum, dec, so, cont, cread],
             )
         }
+        // (read2 #W-json #R-json VALUE) -> (obs WS RS VALUE ENC READ VALID IDEM CANREAD CANREAD-REV MUTUAL MUTUAL-REV)
+        "read2" => {
+            use apache_avro::schema_compatibility::{Compatibility, SchemaCompatibility};
+            if a.len() != 3 {
+                return bad("arity");
+            }
+            let ws = match parse_schema(&a[0]) {
+                Ok(s) => s,
+                Err(e) => return Sexp::tag("w-schema", vec![e]),
+            };
+            let rs = match parse_schema(&a[1]) {
+                Ok(s) => s,
+                Err(e) => return Sexp::tag("r-schema", vec![e]),
+            };
+            let value = match sexp_to_value(&a[2]) {
+                Ok(v) => v,
+                Err(e) => return bad(&e),
+            };
+            let mut bytes: Vec<u8> = Vec::new();
+            let enc = guarded(|| {
+                let w = match GenericDatumWriter::builder(&ws).build() {
+                    Ok(w) => w,
+                    Err(_) => return Sexp::tag("writer-err", vec![]),
+                };
+                match w.write_value_ref(&mut bytes, &value) {
+                    Ok(_) => ok(vec![]),
+                    Err(_) => err(),
+                }
+            });
+            let enc_ok = matches!(enc.tagged(), Some(("ok", _)));
+            let mut result: Option<apache_avro::types::Value> = None;
+            let read = if enc_ok {
+                guarded(|| {
+                    let r = match GenericDatumReader::builder(&ws).reader_schema(&rs).build() {
+                        Ok(r) => r,
+                        Err(_) => return Sexp::tag("reader-err", vec![]),
+                    };
+                    let mut slice = &bytes[..];
+                    match r.read_value(&mut slice) {
+                        Ok(v) => {
+                            let o = ok(vec![value_to_sexp(&v), Sexp::hex(slice)]);
+                            result = Some(v);
+                            o
+                        }
+                        Err(_) => err(),
+                    }
+                })
+            } else {
+                Sexp::tag("skipped", vec![])
+            };
+            let (valid, idem) = match &result {
+                Some(v) => (
+                    guarded(|| Sexp::num(v.validate(&rs) as i64)),
+                    guarded(|| match v.clone().resolve(&rs) {
+                        Ok(v2) => ok(vec![value_to_sexp(&v2)]),
+                        Err(_) => err(),
+                    }),
+                ),
+                None => (Sexp::tag("skipped", vec![]), Sexp::tag("skipped", vec![])),
+            };
+            // the same datum through the object container: Writer with W, Reader with reader_schema(R)
+            let cread = if enc_ok {
+                guarded(|| {
+                    let mut w = match apache_avro::Writer::builder()
+                        .schema(&ws)
+                        .writer(Vec::<u8>::new())
+                        .build()
+                    {
+                        Ok(w) => w,
+                        Err(_) => return Sexp::tag("writer-err", vec![]),
+                    };
+                    if w.append_value_ref(&value).is_err() {
+                        return Sexp::tag("append-err", vec![]);
+                    }
+                    let file = match w.into_inner() {
+                        Ok(f) => f,
+                        Err(_) => return Sexp::tag("finish-err", vec![]),
+                    };
+                    let r = match apache_avro::Reader::builder(&file[..]).reader_schema(&rs).build() {
+                        Ok(r) => r,
+                        Err(_) => return Sexp::tag("reader-err", vec![]),
+                    };
+                    let mut items = Vec::new();
+                    for x in r {
+                        match x {
+                            Ok(v) => items.push(ok(vec![value_to_sexp(&v)])),
+                            Err(_) => {
+                                items.push(err());
+                                break;
+                            }
+                        }
+                    }
+                    Sexp::tag("items", items)
+                })
+            } else {
+                Sexp::tag("skipped", vec![])
+            };
+            let comp = |x: Result<Compatibility, _>| match x {
+                Ok(Compatibility::Full) => Sexp::sym("full"),
+                Ok(Compatibility::Partial) => Sexp::sym("partial"),
+                Err::<_, apache_avro::error::CompatibilityError>(_) => Sexp::sym("incompatible"),
+            };
+            let cr = guarded(|| comp(SchemaCompatibility::can_read(&ws, &rs)));
+            let cr_rev = guarded(|| comp(SchemaCompatibility::can_read(&rs, &ws)));
+            let mu = guarded(|| comp(SchemaCompatibility::mutual_read(&ws, &rs)));
+            let mu_rev = guarded(|| comp(SchemaCompatibility::mutual_read(&rs, &ws)));
+            let self_w = guarded(|| comp(SchemaCompatibility::can_read(&ws, &ws)));
+            Sexp::tag(
+                "obs",
+                vec![
+                    schema_to_sexp(&ws),
+                    schema_to_sexp(&rs),
+                    value_to_sexp(&value),
+                    if enc_ok { ok(vec![Sexp::hex(&bytes)]) } else { enc },
+                    read,
+                    valid,
+                    idem,
+                    cr,
+                    cr_rev,
+                    mu,
+                    mu_rev,
+                    self_w,
+                    cread,
+                ],
+            )
+        }
         "sinkrun" => crate::sinkrun::sinkrun(a),
         "sizes" => Sexp::tag(
             "sizes",
